@@ -21,8 +21,16 @@ from insights.parsr.query.boolean import pred
 
 
 # ---------------------------------------------------------------- values
+USED_CHARS = set()          # every character that went into a name, an attribute or an argument (R4, see alphabet_trace)
+
+
+def text(codes):
+    USED_CHARS.update(codes)
+    return "".join(chr(c) for c in codes)
+
+
 def val(v):
-    return "".join(chr(c) for c in v["s"]) if v["t"] == "s" else v["i"]
+    return text(v["s"]) if v["t"] == "s" else v["i"]
 
 
 def sv(s):
@@ -61,7 +69,7 @@ class Forest(object):
         else:
             cls = rng.choice([Entry, Entry, Section, Directive])
             attrs = [val(a) for a in nd["a"]]
-            e = cls(name="".join(chr(c) for c in nd["n"]), attrs=tuple(attrs) if rng.random() < 0.5 else attrs,
+            e = cls(name=text(nd["n"]), attrs=tuple(attrs) if rng.random() < 0.5 else attrs,
                     children=kids if rng.random() < 0.5 else tuple(kids))
         self.nodes[i + 1] = e
         self.ids[id(e)] = i + 1
@@ -137,7 +145,7 @@ def level(q, rng):
     if q["nk"] == "any":
         name = None
     elif q["nk"] == "lit":
-        name = "".join(chr(c) for c in q["nlit"])
+        name = text(q["nlit"])
     elif q["nk"] == "term":
         name = term(q["nterm"])
     else:
@@ -249,6 +257,120 @@ def select_events(forest, case, rng, n, extra=None):
     return evs
 
 
+# ---------------------------------------------------------------- predicate objects that are used again
+class Session(object):
+    """Predicate OBJECTS held by a program: built from fresh leaves (`new`), combined into further objects
+    (`combine`: the operands are the objects themselves, not copies) and evaluated / used as queries at any
+    point (`otruth`, `oselect`).  Event `obj` numbers are positions in the order of creation."""
+
+    def __init__(self, forest, rng):
+        self.forest, self.rng, self.objs, self.evs, self.dead = forest, rng, [], [], False
+
+    def _add(self, ev, build):
+        try:
+            o, out = build(), "ok"
+        except Exception as ex:      # noqa: an observation
+            o, out = None, "crash:" + type(ex).__name__
+            self.dead = True
+        self.objs.append(o)
+        self.evs.append(dict(ev, out=out))
+        return len(self.objs)
+
+    def new(self, toks):
+        return self._add({"ev": "new", "term": toks}, lambda: term(toks))
+
+    def combine(self, op, a, b):
+        x, y = self.objs[a - 1], self.objs[b - 1]
+        return self._add({"ev": "combine", "op": op, "a": a, "b": b},
+                         lambda: (~x) if op == "not" else ((x & y) if op == "and" else (x | y)))
+
+    def otruth(self, i, vals):
+        o = self.objs[i - 1]
+        ev = {"ev": "otruth", "obj": i, "vals": vals, "test": [], "pyf": [], "out": "ok"}
+        try:
+            vs = [val(v) for v in vals]
+            ev["test"] = [bool(o.test(v)) for v in vs]
+            f = o.to_pyfunc()
+            ev["pyf"] = [bool(f(v)) for v in vs]
+        except Exception as ex:      # noqa
+            ev["out"] = "crash:" + type(ex).__name__
+            ev["test"] = ev["pyf"] = [False] * len(vals)
+        self.evs.append(ev)
+
+    def oselect(self, i, pos, via):
+        o = self.objs[i - 1]
+        q = o if pos == "name" else (None, o)
+        R = receiver(self.forest, self.rng)
+        if via == "find":
+            out, res = call(lambda: R.find(q), self.forest)
+        elif via == "getitem":
+            out, res = call(lambda: R[q], self.forest)
+        else:
+            out, res = call(lambda: R.select(q), self.forest)
+        self.evs.append({"ev": "oselect", "obj": i, "pos": pos, "via": via, "recv": self.forest.doc_ids(),
+                         "deep": via == "find", "roots": False, "out": out, "res": res})
+
+
+def reuse_events(case, rng, n):
+    """A QueryMC `reuse` case: the base object, one further combination built FROM it, and the base object
+    evaluated and used as a query afterwards (sometimes also before)."""
+    S = Session(Forest(case["forest"], rng), rng)
+    vals = case["vals"]
+    b = S.new(case["base"])
+    if n % 3 == 0 and not S.dead:
+        S.otruth(b, vals)
+    if n % 5 == 0 and not S.dead:
+        S.oselect(b, "attr" if n % 2 else "name", "select")
+    u = b
+    if not S.dead:
+        if case["op"] == "not":
+            d = S.combine("not", b, b)
+        else:
+            u = S.new(case["other"])
+            if not S.dead:
+                d = S.combine(case["op"], b, u) if case["side"] == "left" else S.combine(case["op"], u, b)
+    if not S.dead:
+        S.otruth(d, vals)
+        S.otruth(b, vals)
+        S.oselect(b, "name" if n % 2 else "attr", ["select", "find", "getitem"][n % 3])
+        if n % 4 == 0:
+            S.otruth(u, vals)
+        if n % 7 == 0:
+            S.oselect(d, "attr" if n % 2 else "name", "find")
+    return S.evs
+
+
+def random_session(fl, rng, vals):
+    """Beyond the bounds: several objects, a longer random history of combinations, evaluations in between."""
+    S = Session(Forest(fl, rng), rng)
+    for _ in range(rng.choice([2, 3, 3, 4])):
+        S.new(rterm(rng, rng.choice([0, 1, 1]), rng.random() < 0.4))
+    for _ in range(rng.randint(4, 9)):
+        if S.dead:
+            break
+        n, r = len(S.objs), rng.random()
+        if r < 0.45:
+            op = rng.choice(["and", "or", "and", "or", "not"])
+            S.combine(op, rng.randint(1, n), rng.randint(1, n))
+        elif r < 0.75:
+            S.otruth(rng.randint(1, n), vals)
+        else:
+            S.oselect(rng.randint(1, n), rng.choice(["name", "attr"]), rng.choice(["select", "find", "getitem"]))
+    return S.evs
+
+
+def alphabet_trace(tag):
+    """R4: the model transcribes str.lower / str.casefold per character; record the environment's mappings of
+    every character this run used (QueryTrace compares; a disagreement is a machinery error)."""
+    evs = [{"ev": "alphabet", "c": c, "lower": [ord(x) for x in chr(c).lower()], "fold": [ord(x) for x in chr(c).casefold()]}
+           for c in sorted(USED_CHARS)]
+    for c in sorted(USED_CHARS):          # the mappings are per character (no context-dependent casing in the alphabet)
+        for w in ("a" + chr(c), chr(c) + "a", chr(c) * 2):
+            if w.lower() != "".join(x.lower() for x in w) or w.casefold() != "".join(x.casefold() for x in w):
+                raise SystemExit("machinery: context-dependent case mapping for character %d" % c)
+    return {"id": "alphabet/%s" % tag, "forest": [{"d": 0, "n": [], "a": []}], "events": evs}
+
+
 def truth_event(case):
     ev = {"ev": "truth", "term": case["term"], "vals": case["vals"], "test": [], "pyf": [], "out": "ok"}
     try:
@@ -263,8 +385,10 @@ def truth_event(case):
 
 
 # ---------------------------------------------------------------- seeded random cases beyond TLC's bounds
-STRS = ["x", "X", "y", "xy", "Xy", "yX", "a", "A", "b", "ab", "Ab", "", "xyx", "XYX"]
-NAMES = ["a", "b", "A", "ab", "Ab", "x"]
+STRS = ["x", "X", "y", "xy", "Xy", "yX", "a", "A", "b", "ab", "Ab", "", "xyx", "XYX",
+        u"\xdf", "ss", u"\xc9x", u"\xe9X", u"\ufb01", u"a\u03c2"]          # sharp s, E acute, fi ligature, final sigma
+NAMES = ["a", "b", "A", "ab", "Ab", "x", u"\xdf", "SS"]
+NODE_NAMES = ["a", "b", "A", "ab"] * 3 + [u"\xdf", "SS", "ss"]
 
 
 def rvalue(rng):
@@ -337,7 +461,7 @@ def rforest(rng):
         d = 0
         for _ in range(rng.randint(0, 7)):
             d = rng.randint(1, min(d + 1, 4))
-            flat.append({"d": d, "n": [ord(c) for c in rng.choice(NAMES[:4])],
+            flat.append({"d": d, "n": [ord(c) for c in rng.choice(NODE_NAMES)],
                          "a": [rvalue(rng) for _ in range(rng.choice([0, 1, 1, 2, 3]))]})
     return flat
 
@@ -352,10 +476,15 @@ def main():
     extra = []
     byforest = {}
     truths = []
-    nsel = 0
+    nsel = nobj = 0
     for n, c in enumerate(inp.get("cases", [])):
         if "term" in c:
             truths.append(truth_event(c))
+            continue
+        if "base" in c:
+            traces.append({"id": "%s/%s" % (c.get("part", "reuse"), c.get("id", n)), "forest": c["forest"],
+                           "events": reuse_events(c, rng, c.get("id", n))})
+            nobj += 1
             continue
         k = json.dumps(c["forest"], sort_keys=True, separators=(",", ":"))
         if k not in byforest:
@@ -377,6 +506,10 @@ def main():
                 nsel += 1
             traces.append(tr)
         vals = [sv(s) for s in STRS] + [iv(n) for n in range(0, 4)]
+        for i in range(rnd["forests"]):
+            fl = rforest(r2)
+            traces.append({"id": "session/%d/%d" % (rnd["seed"], i), "forest": fl, "events": random_session(fl, r2, vals)})
+            nobj += 1
         for i in range(rnd["terms"]):
             truths.append(truth_event({"term": rterm(r2, r2.choice([2, 3, 3, 4])), "vals": vals}))
     for i, t in enumerate(extra):
@@ -385,8 +518,10 @@ def main():
     dummy = [{"d": 0, "n": [], "a": []}]
     for i in range(0, len(truths), 40):
         traces.append({"id": "truth/%s/%d" % (inp.get("tag", "t"), i), "forest": dummy, "events": truths[i:i + 40]})
+    traces.append(alphabet_trace(inp.get("tag", "t")))
     with open(sys.argv[2], "w") as f:
-        json.dump({"traces": traces, "stats": {"selects": nsel, "truths": len(truths)}}, f, separators=(",", ":"))
+        json.dump({"traces": traces, "stats": {"selects": nsel, "truths": len(truths), "sessions": nobj}}, f,
+                  separators=(",", ":"))
 
 
 if __name__ == "__main__":
